@@ -61,6 +61,23 @@ CLAIMED.update({
    technique="Coq proof (invariant over arbitrary call sequences relating stored header text to the call list) + differential correspondence + executable specification as oracle",
    design="8/C01"),
 })
+CLAIMED.update({
+ "C07": dict(
+   text="Coq theorems about the pool as a transition system (Model/Pool.v: one event per critical section of Pool::connection / recycle / shutdown / the maintenance task and per finished network exchange; any number of senders, connections, maintenance passes and shutdowns - a trace is an arbitrary interleaving): C07_one_send_at_a_time (for every connection the hand-over / send / return events of any accepted trace spell (H S? R)* - never two holders, at most one transaction per hand-over), C07_commits_vs_successes (Ok sends <= commits <= attempts in every reachable state, and commits = Ok sends when no reply to an accepted message was lost), C07_hand_over (a sender only gets a connection it opened or one whose probe just succeeded), C07_idle_set_exact (the idle set holds each parked connection once and nothing else). Tied to /repo by trace validation: the real sync and tokio pools run 2..4 concurrent senders under seeded delays at cfg-guarded probe points placed in every critical section; the single linearised log is replayed on the extracted Pool.step and its counters and Debug idle counts compared with the model state; an independent oracle judges the per-connection server transcripts and the client results.",
+   note="Trusted: kernel, extraction, drivers, the placement of the 17 probe points (hooks; a probe under the pool lock is ordered by the lock, the others only per connection, which is all `step` depends on), the scripted SMTP server. Not every interleaving is forced on the real code: schedules are sampled by seeded delays (the theorems cover all of them; the sampling only validates the model). What happens inside one transaction is C05's model. The tokio pool's recycle runs in a spawned task; dropped (cancelled) futures are not modelled. No axioms.",
+   technique="Coq proof (invariant + per-connection session automaton by induction over arbitrary event traces) + trace-validation correspondence + server-side oracle",
+   design="8/C07"),
+ "C08": dict(
+   text="Coq theorems over the same pool model: C08_life_cycle (the complete status graph of a connection: Idle -> InUse only through a successful probe, a failed send only to Closed, Closed to nothing), C08_broken_never_reused and C08_failed_send_marks (after a failed send the connection is never parked, probed or used again, in any continuation), C08_idle_bound (every reachable idle set has at most max_size entries), C08_return_rule (a returned connection is parked iff healthy and there is room), C08_maintenance (the pass removes only parked connections and adds only while there is room). Tied to /repo by trace validation over fault histories (every (dialogue step, 4xx/5xx/close/commit-then-close) cell, server-side silent drops of idle connections, min_idle 0..3, max_size 0..3, short and long idle timeouts; sync and tokio) and by an oracle on the server's view: no MAIL after a failed command on that connection, NOOP before every reuse, sends fail only when something hit them, Debug idle count within max_size, expiry and top-up within a generous deadline, nothing expired early.",
+   note="Trusted: as C07. Time is not in the model: 'idle longer than the timeout => closed by the next pass' and 'topped up to the minimum' are liveness/timing clauses judged on the implementation (deadline 4 s), not proved. The fix for finding F19 (maintenance push ignored max_size) is part of the model (EMaintPush is bounded); test_connection() returning a connection whose NOOP failed to the idle set is modelled (it is probed again before any send). No axioms.",
+   technique="Coq proof (state invariant, edge relation) + trace-validation correspondence + server-side oracle",
+   design="8/C08"),
+ "C09": dict(
+   text="Coq theorems over the same pool model: C09_shutdown_closes_idle (shutdown takes the whole idle set and closes each connection in it), C09_final (after it, under every continuation - senders, returns, maintenance, further shutdowns - the pool stays shut down and no connection is ever idle again), C09_no_checkout_after (a send that starts afterwards can only learn that the pool is shut down), C09_connects_after_shutdown (the connections opened after shutdown are exactly those of senders that had found the idle set empty before it), C09_inuse_closed_on_return, C09_worker_exits. Tied to /repo by trace validation of one or two shutdown calls racing 1..3 senders and the maintenance task (seeded delays), quiescent shutdown, and dropping the transport with idle connections; the oracle checks QUIT on every idle connection before shutdown returns, nothing parked afterwards, the shut-down error and no new connection for later operations, prompt return, and after the last handle is dropped every server-side socket at EOF and the worker thread gone (/proc/self/task census).",
+   note="Trusted: as C07. 'Returns promptly' and the thread/socket census are runtime facts judged on the implementation, not proved; a server that stalls its QUIT reply makes shutdown wait for the read timeout per connection (C20's subject). The tokio maintenance task is aborted by shutdown (modelled as no further events). No axioms.",
+   technique="Coq proof (shutdown finality by induction over traces, pending-connect counter) + trace-validation correspondence + server-side oracle",
+   design="8/C09"),
+})
 NOT_YET = {}
 props = [json.loads(l) for l in open(os.path.join(V, "properties.jsonl"))]
 checks = []
